@@ -9,9 +9,10 @@ package verifharness
 // World.call classifies every API call against the plan.
 
 var profFault = &Profile{
-	Name: "C07-fault", MinOps: 5, MaxOps: 30, NColls: 2, BigVals: true, EndOnly: 100, NoPrelude: 1, NoGiant: true,
+	Name: "C07-fault", MinOps: 5, MaxOps: 30, NColls: 2, BigVals: true, EndOnly: 100, NoPrelude: 1, NoGiant: true, Cmps: true, Snaps: true,
 	Kinds: []wk{{OpSet, 30}, {OpSetR, 2}, {OpDel, 10}, {OpGet, 5}, {OpGetItem, 4}, {OpMin, 2}, {OpMax, 1}, {OpTotals, 2}, {OpExist, 1}, {OpLen, 1},
-		{OpVisit, 8}, {OpEvict, 7}, {OpFlush, 12}, {OpReopen, 7}, {OpRevert, 3}, {OpCopyTo, 3}, {OpBlock, 1}, {OpRandom, 1}, {OpDel, 1}},
+		{OpVisit, 8}, {OpEvict, 7}, {OpFlush, 12}, {OpReopen, 7}, {OpRevert, 3}, {OpCopyTo, 3}, {OpBlock, 1}, {OpRandom, 1}, {OpDel, 1},
+		{OpSetColl, 2}, {OpRmColl, 1}, {OpWrite, 2}, {OpSnap, 2}, {OpSnapClose, 1}},
 }
 
 // profIterFault: histories for the fault phase of C18 (visits and iterators
